@@ -2283,7 +2283,11 @@ func (f *fragment) importRoaring(ctx context.Context, data []byte, clear bool) e
 		f.rowCache.Add(rowID, nil)
 		if updateCache {
 			anyChanged = true
-			f.cache.BulkAdd(rowID, f.cache.Get(rowID)+uint64(changes))
+			// Recount from storage: the row may not be in the cache (never
+			// admitted, evicted, or not yet loaded), in which case adding the
+			// delta to the cached count would record a wrong total.
+			n := f.storage.CountRange(rowID*ShardWidth, (rowID+1)*ShardWidth)
+			f.cache.BulkAdd(rowID, n)
 		}
 	}
 	// we only set this if we need to update the cache
